@@ -353,6 +353,37 @@ def gen(run_seed, tier):
           'n': n, 'content_seed': r.getrandbits(48), 'hash_mode': hash_mode, 'declared': declared,
           'exec_delay': r.choice([[0.0, 0.0], [0.0, 0.002], [0.0, 0.002], [0.001, 0.001]]),
           'writers': writers, 'ops': ops}
+    # a peer whose copy just failed retries at once: its new writer is registered under the same key before the
+    # done-callbacks of the old one have run, and is still pending when another peer completes the blob
+    r3 = stream('C01.gen.retry', run_seed)
+    if r3.random() < 0.05 and sut != 'manager':
+        bad = r3.choice([{'kind': 'flip', 'pos': r3.randrange(n), 'bit': r3.randrange(8)},
+                         {'kind': 'over', 'extra': r3.choice([1, 2, 16])},
+                         {'kind': 'unrelated', 'len': n, 'seed': r3.getrandbits(32)}])
+        key = ['10.0.0.1', 4000]
+        sc['writers'] = [{'key': key, 'plan': bad}, {'key': list(key), 'plan': {'kind': 'correct'}},
+                         {'key': ['10.0.0.3', 4002], 'plan': {'kind': 'correct'}}]
+        sc['declared'] = n
+        sc['hash_mode'] = 'true'
+        how_ends = r3.choice(['data', 'data', 'abort']) if n > 1 else 'data'
+        total = _plan_len(bad, n)
+        ops = [{'op': 'open', 'w': 0}]
+        if how_ends == 'data':
+            ops += [{'op': 'write', 'w': 0, 'len': c} for c in _chunking(r3, total, n, r3.choice(['one', 'random']))]
+        else:
+            ops += [{'op': 'write', 'w': 0, 'len': max(1, n // 2)}, {'op': 'abort', 'w': 0}]
+        if r3.random() < 0.25:
+            ops.append({'op': 'spin', 'k': 1})
+        ops.append({'op': 'open', 'w': 1})
+        part = r3.choice([0, 1, n // 2, n - 1])
+        if part > 0:
+            ops.append({'op': 'write', 'w': 1, 'len': part})
+        ops.append(_pause(r3))
+        ops.append({'op': 'open', 'w': 2})
+        ops += [{'op': 'write', 'w': 2, 'len': c} for c in _chunking(r3, n, n, r3.choice(['one', 'random']))]
+        ops += [{'op': 'spin', 'k': 3}, {'op': 'exec'}, {'op': 'spin', 'k': 2}]
+        sc['ops'] = ops
+        sc['family'] = sut + '-retry'
     # second download epoch on the same blob object: the stored copy is dropped through the API (delete(), or the
     # consuming read of a BlobBuffer) and the blob is downloaded again (own stream: earlier histories unchanged)
     r2 = stream('C01.gen.epoch2', run_seed)
